@@ -167,9 +167,11 @@ func decodeStringValue(reader ByteRuneReader, flag int32) (string, error) {
 		if err != nil {
 			return "", err
 		}
-		if newLength < length {
+		// every chunk has its own length, which may be larger than that of the first chunk
+		if newLength > cap(buf) {
+			buf = make([]rune, newLength)
+		} else {
 			buf = buf[:newLength]
-			length = newLength
 		}
 	}
 
